@@ -14,7 +14,7 @@ import mpmath
 from hypothesis import strategies as st
 from mpmath import mpf
 
-from vcheck import catalog, gen, mpbackend, obs, opcheck, refmodel as R
+from vcheck import build, catalog, gen, mpbackend, obs, opcheck, refmodel as R
 from vcheck.catalog import OPS
 
 PID = "C08"
@@ -83,7 +83,7 @@ def strategy(cell, tier):
 _SYM = {}
 
 
-def _sympy_vec(system, prefix, momentum):
+def _sympy_vec(system, prefix, momentum, keywords=None):
     import sympy
     from vector.backends import sympy as vs
 
@@ -100,7 +100,13 @@ def _sympy_vec(system, prefix, momentum):
         kw["longitudinal"] = LO[system[1]](syms[2])
     if d == 4:
         kw["temporal"] = TE[system[2]](syms[3])
-    return (Mo if momentum else G)[d](**kw), syms
+    cls = (Mo if momentum else G)[d]
+    v = cls(**kw)
+    if keywords is not None:
+        # the documented keyword form (geometric names, or the momentum spellings on momentum classes)
+        nm = build.names_for(system, "momentum" if (momentum and keywords % 2) else "generic", keywords // 2)
+        v = cls(**dict(zip(nm, syms)))
+    return v, syms
 
 
 def _scalar_symbols(op, case0, factor):
@@ -180,6 +186,21 @@ def check_case(cell, case, ctx):
 
     V, syms_a = _sympy_vec(sa, "a", fa)
     W, syms_b = (_sympy_vec(sb, "b", fb) if db else (None, []))
+    # the keyword constructors must build the same vector as the coordinate-object form (every spelling)
+    for which, system, mom, ref in (("a", sa, fa, V),) + ((("b", sb, fb, W),) if db else ()):
+        for kwsel in range(6 if mom else 1):
+            try:
+                K = _sympy_vec(system, which, mom, keywords=kwsel * (1 if mom else 2))[0]
+            except Exception as e:  # noqa: BLE001
+                fail("constructor", f"keyword construction of a {R.sysname(system)} SymPy vector raised {type(e).__name__}: {e!s:.200}")
+                return
+            same = type(K) is type(ref) and obs.system_of(K) == obs.system_of(ref) == tuple(system) and \
+                tuple(obs.stored(K)) == tuple(obs.stored(ref))
+            if not same:
+                fail("constructor", f"keyword construction ({'momentum' if mom else 'generic'} spelling {kwsel}) of a "
+                     f"{R.sysname(system)} SymPy vector stores {R.sysname(obs.system_of(K))} {obs.stored(K)}; the coordinate-object "
+                     f"form stores {R.sysname(obs.system_of(ref))} {obs.stored(ref)}")
+                return
     if op.name in ("equal", "not_equal"):
         # structural comparison of expressions: only reflexivity is meaningful
         ctx.evaluation()
